@@ -752,14 +752,40 @@ def const_eval(t):
     raise NotConstant
 
 
-def simplify(I: Interp, t):
+def simplify(I: Interp, t, mapping=None):
     """Re-evaluate a term bottom-up after a substitution made parts of it constant: decided conditionals, comparisons and
-    truth tests of constants, and look-ups of constant keys in tables that are never written (module / class level)."""
+    truth tests of constants, look-ups of constant keys in tables that are never written (module / class level), and a
+    string joined from a comprehension over what has become a constant sequence.  ``mapping``: the substitution, applied
+    here (to the term, and to the comprehensions it refers to)."""
     from .absint import mk_cond, mk_not
+    if mapping:
+        t = subst(t, mapping)
     if not isinstance(t, tuple) or not t or t[0] in ("const", "ref"):
         return t
-    new = tuple(simplify(I, x) if isinstance(x, tuple) else x for x in t)
+    new = tuple(simplify(I, x, mapping) if isinstance(x, tuple) else x for x in t)
     k = new[0]
+    if k == "call" and new[1] == ".join" and len(new[2]) == 2 and is_const(new[2][0]) and isinstance(new[2][0][1], str) and new[2][1][0] == "ref":
+        o = I.obj(new[2][1])
+        if isinstance(o, HList) and len(o.segs) == 1 and o.segs[0][0] == "loop" and len(o.segs[0][2]) == 1 and o.segs[0][2][0][0] == "e":
+            lid = o.segs[0][1]
+            info = I.loops.get(lid, {})
+            it = simplify(I, info.get("iter"), mapping) if info.get("iter") is not None else None
+            seq = None
+            if it is not None and is_const(it) and isinstance(it[1], (str, tuple)):
+                seq = list(it[1])
+            elif it is not None and it[0] == "tuple" and all(is_const(x) for x in it[1]):
+                seq = [x[1] for x in it[1]]
+            if seq is not None and len(seq) <= 64 and not info.get("conds"):
+                parts = []
+                for c in seq:
+                    m2 = dict(mapping or {})
+                    m2[("elem", lid)] = const(c)
+                    parts.append(simplify(I, o.segs[0][2][0][1], m2))
+                if all(is_const(x) and isinstance(x[1], str) for x in parts):
+                    return const(new[2][0][1].join(x[1] for x in parts))
+    if k == "binop" and new[1] == "Add" and is_const(new[2]) and is_const(new[3]) and type(new[2][1]) is type(new[3][1]) and isinstance(new[2][1], (str, int)) \
+            and not isinstance(new[2][1], bool):
+        return const(new[2][1] + new[3][1])
 
     def table(ref):
         o = I.obj(ref)
